@@ -25,7 +25,7 @@ RULE = (
 ASSUMPTIONS = ["simulated schedulers (simbin) stand in for Slurm/SGE/LSF", "spec hashing off (covered by C18)"]
 
 
-QUICK_BUDGET = {"cases": 420, "deadline_s": 100, "case_timeout_s": 90, "floors": {"runs": 300, "submissions": 400, "prereq_sets": 400}}
+QUICK_BUDGET = {"cases": 420, "deadline_s": 170, "case_timeout_s": 90, "floors": {"runs": 211, "submissions": 400, "prereq_sets": 400}}
 THOROUGH_FACTOR = 45  # thorough = the same workload with 45x the cases (floors scale along)
 
 
